@@ -122,6 +122,8 @@ class X12Base(object):
             self.loops.append(('ST', transaction_control_number))
             self.seg_count = 1
             self.hl_count = 0
+            # service lines are numbered within a claim: nothing carries over from the set before
+            self.lx_count = 0
         #elif seg_id == 'LS':
         #    self.seg_count += 1
         #    self.loops.append(('LS', seg_data.get_value('LS06')))
